@@ -69,8 +69,8 @@ set_option linter.unusedSimpArgs false
 /-- `get_refs_descriptor` computes d1 = r + 8·exotic + 32·mask (tvm.pdf 3.1.4), for ALL reference counts, flags and masks. -/
 theorem c01_src_d1 (r : Nat) (exotic : Bool) (mask : Nat) :
     Generated.refsDescriptor_sideOk r exotic mask ∧ Generated.refsDescriptor r exotic mask = Spec.d1 r exotic mask := by
-  simp only [Generated.refsDescriptor_sideOk, Generated.refsDescriptor, Spec.d1]
-  cases exotic <;> src_arith
+  simp only [Generated.refsDescriptor_sideOk, Generated.refsDescriptor, Spec.d1] <;>
+    (cases exotic <;> src_arith)
 
 /-- `get_bits_descriptor` computes d2 = ⌊b/8⌋ + ⌈b/8⌉ (tvm.pdf 3.1.4), for ALL bit lengths. -/
 theorem c01_src_d2 (b : Nat) : Generated.bitsDescriptor_sideOk b ∧ Generated.bitsDescriptor b = Spec.d2 b := by
@@ -102,15 +102,15 @@ theorem c01_src_descriptors_fit (r : Nat) (exotic : Bool) (b mask : Nat) (hr : r
     Generated.refsDescriptor r exotic mask < 256 ^ Generated.refsDescriptor_width ∧
     Generated.bitsDescriptor b < 256 ^ Generated.bitsDescriptor_width := by
   rw [(c01_src_d1 r exotic mask).2, (c01_src_d2 b).2]
-  simp only [Spec.d1, Spec.d2, show Generated.refsDescriptor_width = 1 from rfl, show Generated.bitsDescriptor_width = 1 from rfl]
-  cases exotic <;> src_arith
+  simp only [Spec.d1, Spec.d2, show Generated.refsDescriptor_width = 1 from rfl, show Generated.bitsDescriptor_width = 1 from rfl] <;>
+    (cases exotic <;> src_arith)
 
 /-- the depth test of `calculate_hashes` refuses exactly depths above 1023 (`c01_constructible_iff`'s bound), and the
 hand model's test `depth0 + 1 >= 1024` is that test. -/
 theorem c01_src_depth_limit (depth : Nat) :
     Generated.depthTooLarge_sideOk depth ∧ (Generated.depthTooLarge depth = false ↔ depth ≤ 1023) ∧
     Generated.depthTooLarge depth = decide (depth >= 1024) := by
-  refine ⟨by simp only [Generated.depthTooLarge_sideOk] <;> src_arith, ?_, ?_⟩
+  refine ⟨by simp only [Generated.depthTooLarge_sideOk]; src_arith, ?_, ?_⟩
   · simp only [Generated.depthTooLarge, decide_eq_false_iff_not] <;> omega
   · simp only [Generated.depthTooLarge, decide_eq_decide] <;> omega
 
